@@ -202,6 +202,14 @@ def mergeArm (lhs : List Container) (r : Container) : MergeArm :=
       | .bitmap _, .array _ => .bmpArr
       | .bitmap _, .bitmap _ => .bmpBmp
 
+/-- the `Ok(loc)` arm, multiops.rs:281-287: `lhs = &mut lhs[loc]`, the kind `match`, then
+    `op(&mut lhs.store, rhs.store)`; the result is the new `lhs[loc]` -/
+def mergeCombineOwned (op : Store → Store → Store) (l r : Container) : Container :=
+  match l.store, r.store with
+  | .array _, .array _ => { l with store := op (storeToBitmap l.store) r.store }  -- lhs.store = lhs.store.to_bitmap()
+  | .array _, .bitmap _ => { r with store := op r.store l.store }                 -- mem::swap(lhs, &mut rhs)
+  | _, _ => { l with store := op l.store r.store }
+
 /-- body of the `for mut rhs in rhs` loop, multiops.rs:278-289; `op` is `BitOrAssign::bitor_assign` /
     `BitXorAssign::bitxor_assign` on `(&mut Store, Store)` -/
 def mergeStepOwned (op : Store → Store → Store) (lhs : List Container) (r : Container) : List Container :=
@@ -210,13 +218,7 @@ def mergeStepOwned (op : Store → Store → Store) (lhs : List Container) (r : 
   | (true, loc) =>
     match lhs[loc]? with
     | none => lhs                                                           -- unreachable (`Ok(loc)` is in range)
-    | some l =>
-      match l.store, r.store with
-      | .array _, .array _ =>                                               -- lhs.store = lhs.store.to_bitmap()
-        lhs.set loc { l with store := op (storeToBitmap l.store) r.store }
-      | .array _, .bitmap _ =>                                              -- mem::swap(lhs, &mut rhs)
-        lhs.set loc { r with store := op r.store l.store }
-      | _, _ => lhs.set loc { l with store := op l.store r.store }
+    | some l => lhs.set loc (mergeCombineOwned op l r)
 
 /-- multiops.rs:272 `merge_container_owned` -/
 def mergeContainerOwned (op : Store → Store → Store) (lhs rhs : List Container) : List Container :=
@@ -303,6 +305,16 @@ def mergeArmRef (cs : List Cow) (r : Container) : MergeArm :=
       | .bitmap _, .array _ => .bmpArr
       | .bitmap _, .bitmap _ => .bmpBmp
 
+/-- the `Ok(loc)` arm, multiops.rs:401-421; the result is the new `containers[loc]` -/
+def mergeCombineRef (op : Store → Store → Store) (lhs : Cow) (r : Container) : Cow :=
+  match lhs.get.store, r.store with
+  | .array _, .array _ =>                                               -- new bitmap from the borrowed array
+    .owned { key := lhs.get.key, store := op (storeToBitmap lhs.get.store) r.store }
+  | .array _, .bitmap _ =>                                              -- copy the rhs bitmap, add lhs to it
+    .owned { key := lhs.get.key, store := op r.store lhs.get.store }
+  | .bitmap _, _ =>                                                     -- `to_mut()`: clone-on-write
+    .owned { key := lhs.get.key, store := op lhs.get.store r.store }
+
 /-- body of the `for rhs in rhs` loop, multiops.rs:394-423; `op` is `|a, b| *a |= b` / `*a ^= b` on
     `(&mut Store, &Store)` -/
 def mergeStepRef (op : Store → Store → Store) (cs : List Cow) (r : Container) : List Cow :=
@@ -311,14 +323,7 @@ def mergeStepRef (op : Store → Store → Store) (cs : List Cow) (r : Container
   | (true, loc) =>
     match cs[loc]? with
     | none => cs                                                            -- unreachable
-    | some lhs =>
-      match lhs.get.store, r.store with
-      | .array _, .array _ =>                                               -- new bitmap from the borrowed array
-        cs.set loc (.owned { key := lhs.get.key, store := op (storeToBitmap lhs.get.store) r.store })
-      | .array _, .bitmap _ =>                                              -- copy the rhs bitmap, add lhs to it
-        cs.set loc (.owned { key := lhs.get.key, store := op r.store lhs.get.store })
-      | .bitmap _, _ =>                                                     -- `to_mut()`: clone-on-write
-        cs.set loc (.owned { key := lhs.get.key, store := op lhs.get.store r.store })
+    | some lhs => cs.set loc (mergeCombineRef op lhs r)
 
 /-- multiops.rs:388 `merge_container_ref` -/
 def mergeContainerRef (op : Store → Store → Store) (cs : List Cow) (rhs : List Container) : List Cow :=
